@@ -234,7 +234,7 @@ struct ExprGen {
       case 3: return -gen(rows, cols, depth - 1);
       case 4: return transpose(gen(cols, rows, depth - 1));
       case 5: { int k = r.range(2, 3); return gen(rows, k, depth - 1) * gen(k, cols, depth - 1); }
-      case 6: if (r.coin(50)) { // concatenation of matrix / vector blocks (non-square blocks matter)
+      case 6: case 7: if (r.coin(70)) { // concatenation of matrix / vector blocks (non-square blocks matter)
         if (cols >= 3 && r.coin()) { int c1 = r.range(1, cols - 1); Array<const ExprNode> a(2); a.set_ref(0, gen(rows, c1, depth - 1)); a.set_ref(1, gen(rows, cols - c1, depth - 1)); return ExprVector::new_(a, ExprVector::ROW); }
         if (rows >= 3) { int r1 = r.range(1, rows - 1); Array<const ExprNode> a(2); a.set_ref(0, gen(r1, cols, depth - 1)); a.set_ref(1, gen(rows - r1, cols, depth - 1)); return ExprVector::new_(a, ExprVector::COL); }
         if (cols >= 2) { int c1 = r.range(1, cols - 1); Array<const ExprNode> a(2); a.set_ref(0, gen(rows, c1, depth - 1)); a.set_ref(1, gen(rows, cols - c1, depth - 1)); return ExprVector::new_(a, ExprVector::ROW); }
